@@ -1,5 +1,6 @@
 /-
-  Whole-file single-bit damage after the Blocks: a flip in the Index field or the Stream Footer of an accepted Stream is
+  Whole-file single-bit damage: a flip in a Block Header (not its size byte), Block Padding or Check of any Block
+  (`BlocksRun_flip`, `streamOne_blocks_flip`), in the Index field or in the Stream Footer of an accepted Stream is
   rejected (the Blocks before it are read identically — `BlocksRun_local` —, the grammar is unambiguous —
   `BlocksRun_functional` —, so both files would carry an accepted Index/footer for the same Blocks at the same place).
   Kernel proofs, core Lean only.
@@ -117,5 +118,183 @@ theorem streamOne_index_footer_flip (E : Env) (hloc : PayloadLocal E) (hbd : Pay
     obtain ⟨e, he⟩ := streamFooterDecode_flip _ _ hd1 (j - 8 * ic) (by unfold STREAM_HEADER_SIZE at hjlt; omega)
     rw [he] at hd2
     simp at hd2
+
+/-! ## flips inside the Blocks -/
+
+/-- Bits of the Blocks region that single-bit damage theorems cover: every bit of a Block Header except its first byte
+    (Block Header Size), every bit of Block Padding and of the Check field.  `ProtectedBit … inp cap i`: bit `i` of `inp`
+    (which starts at a Block Header) is such a bit of one of the Blocks the decoder walks through. -/
+inductive ProtectedBit (E : Env) (fl : Flags) (hdr : StreamFlags) : List UInt8 → Nat → Nat → Prop
+  | header (inp : List UInt8) (cap : Nat) (b0 : UInt8) (tl : List UInt8) (i : Nat) :
+      inp = b0 :: tl → 8 ≤ i → i < 8 * ((b0.toNat + 1) * 4) → ProtectedBit E fl hdr inp cap i
+  | tail (inp : List UInt8) (cap : Nat) (b0 : UInt8) (tl : List UInt8) (h : BlockHeader) (i : Nat) :
+      inp = b0 :: tl →
+      blockHeaderDecodeWith ((b0.toNat + 1) * 4) hdr.check (inp.take ((b0.toNat + 1) * 4)) = .ok h →
+      8 * ((b0.toNat + 1) * 4 + (blockDecode E hdr.check fl.ignoreCheck ((b0.toNat + 1) * 4) h (inp.drop ((b0.toNat + 1) * 4)) cap).compressed) ≤ i →
+      i < 8 * ((b0.toNat + 1) * 4 + (blockDecode E hdr.check fl.ignoreCheck ((b0.toNat + 1) * 4) h (inp.drop ((b0.toNat + 1) * 4)) cap).consumed) →
+      ProtectedBit E fl hdr inp cap i
+  | later (inp : List UInt8) (cap : Nat) (b0 : UInt8) (tl : List UInt8) (h : BlockHeader) (j : Nat) :
+      inp = b0 :: tl →
+      blockHeaderDecodeWith ((b0.toNat + 1) * 4) hdr.check (inp.take ((b0.toNat + 1) * 4)) = .ok h →
+      ProtectedBit E fl hdr
+        (inp.drop ((b0.toNat + 1) * 4 + (blockDecode E hdr.check fl.ignoreCheck ((b0.toNat + 1) * 4) h (inp.drop ((b0.toNat + 1) * 4)) cap).consumed))
+        (cap - (blockDecode E hdr.check fl.ignoreCheck ((b0.toNat + 1) * 4) h (inp.drop ((b0.toNat + 1) * 4)) cap).out.length) j →
+      ProtectedBit E fl hdr inp cap
+        (8 * ((b0.toNat + 1) * 4 + (blockDecode E hdr.check fl.ignoreCheck ((b0.toNat + 1) * 4) h (inp.drop ((b0.toNat + 1) * 4)) cap).consumed) + j)
+
+theorem ProtectedBit_inv {E : Env} {fl : Flags} {hdr : StreamFlags} {b0 : UInt8} {tl : List UInt8} {cap i : Nat}
+    (p : ProtectedBit E fl hdr (b0 :: tl) cap i) :
+    (8 ≤ i ∧ i < 8 * ((b0.toNat + 1) * 4)) ∨
+    (∃ h : BlockHeader,
+      blockHeaderDecodeWith ((b0.toNat + 1) * 4) hdr.check ((b0 :: tl).take ((b0.toNat + 1) * 4)) = .ok h ∧
+      8 * ((b0.toNat + 1) * 4 + (blockDecode E hdr.check fl.ignoreCheck ((b0.toNat + 1) * 4) h ((b0 :: tl).drop ((b0.toNat + 1) * 4)) cap).compressed) ≤ i ∧
+      i < 8 * ((b0.toNat + 1) * 4 + (blockDecode E hdr.check fl.ignoreCheck ((b0.toNat + 1) * 4) h ((b0 :: tl).drop ((b0.toNat + 1) * 4)) cap).consumed)) ∨
+    (∃ (h : BlockHeader) (j : Nat),
+      blockHeaderDecodeWith ((b0.toNat + 1) * 4) hdr.check ((b0 :: tl).take ((b0.toNat + 1) * 4)) = .ok h ∧
+      ProtectedBit E fl hdr
+        ((b0 :: tl).drop ((b0.toNat + 1) * 4 + (blockDecode E hdr.check fl.ignoreCheck ((b0.toNat + 1) * 4) h ((b0 :: tl).drop ((b0.toNat + 1) * 4)) cap).consumed))
+        (cap - (blockDecode E hdr.check fl.ignoreCheck ((b0.toNat + 1) * 4) h ((b0 :: tl).drop ((b0.toNat + 1) * 4)) cap).out.length) j ∧
+      i = 8 * ((b0.toNat + 1) * 4 + (blockDecode E hdr.check fl.ignoreCheck ((b0.toNat + 1) * 4) h ((b0 :: tl).drop ((b0.toNat + 1) * 4)) cap).consumed) + j) := by
+  generalize hinp : b0 :: tl = inp at p
+  cases p with
+  | header _ _ c0 t0 _ he h8 hlt =>
+    rw [← hinp] at he
+    simp only [List.cons.injEq] at he
+    obtain ⟨e1, e2⟩ := he
+    subst e1 e2
+    exact Or.inl ⟨h8, hlt⟩
+  | tail _ _ c0 t0 h _ he hh hlo hhi =>
+    rw [← hinp] at he
+    simp only [List.cons.injEq] at he
+    obtain ⟨e1, e2⟩ := he
+    subst e1 e2
+    subst hinp
+    exact Or.inr (Or.inl ⟨h, hh, hlo, hhi⟩)
+  | later _ _ c0 t0 h j he hh hp =>
+    rw [← hinp] at he
+    simp only [List.cons.injEq] at he
+    obtain ⟨e1, e2⟩ := he
+    subst e1 e2
+    subst hinp
+    exact Or.inr (Or.inr ⟨h, j, hh, hp, rfl⟩)
+
+theorem flipBit_cons_ge8 (b0 : UInt8) (tl : List UInt8) (i : Nat) (h : 8 ≤ i) :
+    flipBit (b0 :: tl) i = b0 :: flipBit tl (i - 8) := by
+  unfold flipBit
+  obtain ⟨k, hk⟩ := Nat.exists_eq_succ_of_ne_zero (by omega : i / 8 ≠ 0)
+  rw [hk, List.modify_succ_cons]
+  have h1 : (i - 8) / 8 = k := by omega
+  have h2 : (i - 8) % 8 = i % 8 := by omega
+  rw [h1, h2]
+
+/-- No accepting walk exists over the Blocks of an input in which one protected bit has been flipped. -/
+theorem BlocksRun_flip (E : Env) (hloc : PayloadLocal E) (hbd : PayloadBounded E) (fl : Flags) (hign : fl.ignoreCheck = false)
+    (hdr : StreamFlags) (hsup : hdr.check ≠ 0 → E.checkSupported hdr.check = true)
+    {blocks : HashInfo} {inp : List UInt8} {cap : Nat} {out : List UInt8} {c : Nat} {final : HashInfo}
+    (r : BlocksRun E fl hdr blocks inp cap out c final) :
+    ∀ (i : Nat), ProtectedBit E fl hdr inp cap i → i < 8 * c → c ≤ inp.length →
+      ∀ (out' : List UInt8) (c' : Nat) (final' : HashInfo), BlocksRun E fl hdr blocks (flipBit inp i) cap out' c' final' →
+        ((flipBit inp i).drop c').head? = some 0 → False := by
+  induction r with
+  | done blocks inp cap => intro i _ hi; omega
+  | block blocks inp cap b0 tl h b out1 c1 final hinp hb0 hlen hh hv hbdef hbr hF hsub ih =>
+    intro i hp hi hc out' c' final' r' hz'
+    subst hinp
+    -- the first byte is never the flipped one
+    have hpi := ProtectedBit_inv hp
+    have hi8 : 8 ≤ i := by
+      rcases hpi with ⟨h8, _⟩ | ⟨_, _, hlo, _⟩ | ⟨_, _, _, _, he⟩ <;> omega
+    rw [flipBit_cons_ge8 b0 tl i hi8] at r' hz'
+    rcases BlocksRun_inv r' with ⟨_, h2, _⟩ | ⟨b0', tl', h', b', out2, c2, hinp', hb0', hh', hbd', hbr', hlen', ho, hcc, hsub'⟩
+    · subst h2
+      simp only [List.drop_zero, List.head?_cons, Option.some.injEq] at hz'
+      rw [hz'] at hb0; simp at hb0
+    · simp only [List.cons.injEq] at hinp'
+      obtain ⟨e1, e2⟩ := hinp'
+      subst e1
+      rw [← flipBit_cons_ge8 b0 tl i hi8] at hh' hbd' hsub' hz' hlen'
+      by_cases hhdr : i < 8 * ((b0.toNat + 1) * 4)
+      · -- Block Header flip: CRC32
+        have hflip := blockHeaderDecodeWith_flip _ _ _ h hh i hi8 hhdr
+        rw [flipBit_take, hflip] at hh'
+        simp at hh'
+      · -- the header is untouched
+        have hsame : (flipBit (b0 :: tl) i).take ((b0.toNat + 1) * 4) = (b0 :: tl).take ((b0.toNat + 1) * 4) := by
+          rw [flipBit_take, flipBit_out_of_range]; rw [List.length_take]; omega
+        rw [hsame, hh] at hh'
+        simp only [Except.ok.injEq] at hh'
+        subst hh'
+        rw [flipBit_drop_ge _ i _ (by omega)] at hbd'
+        have hwf : b.compressed ≤ (List.take (min (List.drop ((b0.toNat + 1) * 4) (b0 :: tl)).length
+            (compressedLimit ((b0.toNat + 1) * 4) hdr.check h.compressedSize)) (List.drop ((b0.toNat + 1) * 4) (b0 :: tl))).length := by
+          rw [hF.compressed_eq]; unfold payloadCall; exact hbd _ _ _
+        by_cases htail : i < 8 * ((b0.toNat + 1) * 4 + b.consumed)
+        · -- inside this Block, after the header
+          have hlo : 8 * ((b0.toNat + 1) * 4 + b.compressed) ≤ i := by
+            rcases hpi with ⟨_, hh8⟩ | ⟨h2, hh2, hlo2, _⟩ | ⟨h2, j, hh2, _, he⟩
+            · omega
+            · rw [hh] at hh2; simp only [Except.ok.injEq] at hh2; subst hh2
+              rw [hbdef] at hlo2; exact hlo2
+            · rw [hh] at hh2; simp only [Except.ok.injEq] at hh2; subst hh2
+              rw [hbdef] at he; omega
+          rw [hign] at hbdef hbd'
+          have := blockDecode_tail_flip E hloc hdr.check _ h _ cap b hbdef hbr hsup hwf (i - 8 * ((b0.toNat + 1) * 4)) (by omega) (by omega)
+          rw [hbd'] at this
+          exact this hbr'
+        · -- in a later Block
+          have hbl := blockDecode_local E hloc hdr.check fl.ignoreCheck _ h _ (flipBit (List.drop ((b0.toNat + 1) * 4) (b0 :: tl)) (i - 8 * ((b0.toNat + 1) * 4))) cap b hbdef hbr hwf
+            (by rw [flipBit_take, flipBit_out_of_range]; rw [List.length_take]; omega)
+          rw [hbl] at hbd'
+          subst hbd'
+          have hj : ProtectedBit E fl hdr (List.drop ((b0.toNat + 1) * 4 + b.consumed) (b0 :: tl)) (cap - b.out.length)
+              (i - 8 * ((b0.toNat + 1) * 4 + b.consumed)) := by
+            rcases hpi with ⟨_, hh8⟩ | ⟨h2, hh2, _, hhi2⟩ | ⟨h2, j, hh2, hj2, he⟩
+            · omega
+            · rw [hh] at hh2; simp only [Except.ok.injEq] at hh2; subst hh2
+              rw [hbdef] at hhi2; omega
+            · rw [hh] at hh2; simp only [Except.ok.injEq] at hh2; subst hh2
+              rw [hbdef] at hj2 he
+              rw [he, Nat.add_sub_cancel_left]
+              exact hj2
+          rw [flipBit_drop_ge _ i _ (by omega)] at hsub'
+          subst hcc
+          rw [← List.drop_drop, flipBit_drop_ge _ i _ (by omega)] at hz'
+          exact ih _ hj (by omega) (by rw [List.length_drop]; omega) _ _ _ hsub' hz'
+
+
+/-- **Block Header, Block Padding, Check — whole file.**  If a Stream is accepted (LZMA_IGNORE_CHECK off, Check ID None or
+    supported), the same input with one protected bit of any of its Blocks flipped (`ProtectedBit`: Block Header except
+    the size byte, Block Padding, Check) is not accepted. -/
+theorem streamOne_blocks_flip (E : Env) (hloc : PayloadLocal E) (hbd : PayloadBounded E) (fl : Flags) (hign : fl.ignoreCheck = false)
+    (first : Bool) (inp : List UInt8) (cap : Nat) (hs : (streamOne E fl first inp cap).ret = .streamEnd)
+    (hsup : ∀ hdr, streamHeaderDecode (inp.take STREAM_HEADER_SIZE) = .ok hdr → hdr.check ≠ 0 → E.checkSupported hdr.check = true) :
+    ∃ (hdr : StreamFlags) (c : Nat) (final : HashInfo),
+      streamHeaderDecode (inp.take STREAM_HEADER_SIZE) = .ok hdr ∧
+      BlocksRun E fl hdr [] (inp.drop STREAM_HEADER_SIZE) cap (streamOne E fl first inp cap).out c final ∧
+      ∀ (j : Nat), ProtectedBit E fl hdr (inp.drop STREAM_HEADER_SIZE) cap j → j < 8 * c →
+        (streamOne E fl first (flipBit inp (8 * STREAM_HEADER_SIZE + j)) cap).ret ≠ .streamEnd := by
+  obtain ⟨hdr, c, final, s1, hl1, hh, hrun, hF1, hlen1, hle1⟩ := streamOne_streamEnd E fl first inp cap _ rfl hs
+  refine ⟨hdr, c, final, hh, hrun, ?_⟩
+  intro j hp hj hc
+  obtain ⟨hdr2, c2, final2, s2, hl2, hh2, hrun2, hF2, hlen2, hle2⟩ :=
+    streamOne_streamEnd E fl first (flipBit inp (8 * STREAM_HEADER_SIZE + j)) cap _ rfl hc
+  have hhdr : (flipBit inp (8 * STREAM_HEADER_SIZE + j)).take STREAM_HEADER_SIZE = inp.take STREAM_HEADER_SIZE := by
+    rw [flipBit_take, flipBit_out_of_range]; rw [List.length_take]; omega
+  rw [hhdr, hh] at hh2
+  simp only [Except.ok.injEq] at hh2
+  subst hh2
+  have hdrop : (flipBit inp (8 * STREAM_HEADER_SIZE + j)).drop STREAM_HEADER_SIZE = flipBit (inp.drop STREAM_HEADER_SIZE) j := by
+    rw [flipBit_drop_ge inp _ _ (by omega)]
+    congr 1
+    omega
+  rw [hdrop] at hrun2
+  have hz2 := hF2.head_zero
+  rw [← List.drop_drop, hdrop] at hz2
+  have hcle : c ≤ (inp.drop STREAM_HEADER_SIZE).length := by
+    rw [List.length_drop]
+    have := hF1.consumed_le
+    rw [List.length_drop] at this
+    omega
+  exact BlocksRun_flip E hloc hbd fl hign hdr (hsup hdr hh) hrun j hp hj hcle _ _ _ hrun2 hz2
 
 end XzVerif.XzDecode
